@@ -834,7 +834,10 @@ pub fn run(out: &mut Out, tier: &str, seed: u64, prop: &str) {
             "https://h.org/a[1]@b{c}$d", "${VP_HOME_DIR}", "https://h.org/${VP HOME}", "https://h.org/${VP_HOME_DIR}/${VP_UNSET}/${VP_TOKEN_1}",
             "https://h.org/${VP_N\u{663}}/a", "https://h.org/${VP_\u{c9}}/a", "https://h.org/${VP_\u{ff11}}/${VP_HOME_DIR}",
             // schemes outside the supported set (rejected by this URL type; a path with the extension feature — `given()` is still the text as written)
-            "ftp://h.org/${VP_HOME_DIR}/a", "ssh://h.org/${VP_TOKEN_1}", "HTTPS://h.org/${VP_HOME_DIR}", "s3://b/${VP_HOME_DIR}/k", "localhost:8080/${VP_HOME_DIR}", "C:\\d\\${VP_HOME_DIR}", "git+ftp://h/${VP_UNSET}/r"];
+            "ftp://h.org/${VP_HOME_DIR}/a", "ssh://h.org/${VP_TOKEN_1}", "HTTPS://h.org/${VP_HOME_DIR}", "s3://b/${VP_HOME_DIR}/k", "localhost:8080/${VP_HOME_DIR}", "C:\\d\\${VP_HOME_DIR}", "git+ftp://h/${VP_UNSET}/r",
+            // file URLs whose FRAGMENT looks like a path with `.` / `..` segments (F23: with the extension feature the path is normalised — the fragment is not part of it)
+            "file:///srv/pkg.tar.gz#subdirectory=a/../b", "file:///srv/pkg.tar.gz#subdirectory=src/./core", "file:///srv/pkg.tar.gz#egg=a/../../b", "file://localhost/srv/${VP_HOME_DIR}/p.whl#x/../../y",
+            "file:///srv/p.whl#..", "file:///srv/p.whl#a//b/.", "file:///srv/${VP_EMPTY}p.whl#subdirectory=${VP_HOME_DIR}/../z"];
         let envsets: Vec<Vec<(String, String)>> = vec![
             vec![],
             default_vars(),
